@@ -389,18 +389,22 @@ func join(a, b context, node parse.Node, nodeName string) context {
 // element or attr containing bName and bNames.
 func joinNames(aName, bName string, aNames, bNames []string) []string {
 	var ret []string
-	if aName != bName {
-		ret = append(ret, aName, bName)
-	}
-	aNamesSet := make(map[string]bool)
-	for _, name := range aNames {
-		aNamesSet[name] = true
-	}
-	for _, name := range bNames {
-		if !aNamesSet[name] {
-			ret = append(ret, name)
+	seen := make(map[string]bool)
+	add := func(names ...string) {
+		for _, name := range names {
+			if !seen[name] {
+				seen[name] = true
+				ret = append(ret, name)
+			}
 		}
 	}
+	// Names collected by earlier joins must be kept even if both contexts agree on the
+	// current name.
+	add(aNames...)
+	if aName != bName {
+		add(aName, bName)
+	}
+	add(bNames...)
 	return ret
 }
 
